@@ -102,7 +102,7 @@ func (comp) Gen(prop string, rng *rand.Rand, tier string) *core.History {
 		}
 		return core.Pick(rng, alpha)
 	}
-	values := [][]byte{{1}, {2}, {3}, {}, {0xaa, 0xbb}}
+	values := [][]byte{{1}, {2}, {3}, {}, {0xaa, 0xbb}, core.NilValue} // incl. the untyped nil (the cache used as a set)
 	ids := [][]byte{[]byte("h1"), []byte("h2"), []byte("h3")}
 	tag := uint64(0)
 	if core.Chance(rng, 1, 2) {
@@ -209,7 +209,7 @@ func encCall(id []byte, tag uint64, key []byte, val []byte) []byte {
 
 func (r *recorder) handler(id []byte, tag uint64) func(key []byte, value interface{}) {
 	return func(key []byte, value interface{}) {
-		v, _ := value.([]byte)
+		v, _ := core.FromValue(value)
 		e := encCall(id, tag, key, v)
 		r.mu.Lock()
 		r.calls = append(r.calls, e)
@@ -250,7 +250,7 @@ func asBytes(v interface{}, ok bool) []byte {
 	if !ok {
 		return nil
 	}
-	b, _ := v.([]byte)
+	b, _ := core.FromValue(v)
 	if b == nil {
 		b = []byte{}
 	}
@@ -287,6 +287,7 @@ func (comp) Run(h *core.History, scratch string) *core.Result {
 	shardIns := map[uint32]int{}     // situations only
 
 	for i, op := range h.Ops {
+		res.Scribble() // the key buffers handed to the previous call are reused by their caller
 		a := op.Parsed()
 		var key, val []byte
 		if len(a) > 0 {
@@ -306,7 +307,7 @@ func (comp) Run(h *core.History, scratch string) *core.Result {
 		switch op.Code {
 		case opPut:
 			val = a[1].Bytes()
-			ev := c.Put(key, val, len(val))
+			ev := c.Put(res.CallerKey(key), core.ToValue(val), len(val))
 			obs = append(obs, core.Lbl(1, core.Bool(ev)))
 			inserted = true
 			if prevHas[string(key)] {
@@ -317,7 +318,7 @@ func (comp) Run(h *core.History, scratch string) *core.Result {
 			}
 		case opHasOrAdd:
 			val = a[1].Bytes()
-			retHas, retAdded = c.HasOrAdd(key, val, len(val))
+			retHas, retAdded = c.HasOrAdd(res.CallerKey(key), core.ToValue(val), len(val))
 			obs = append(obs, core.Lbl(1, core.Bool(retHas)), core.Lbl(2, core.Bool(retAdded)))
 			inserted = retAdded
 			if !retAdded {
